@@ -20,6 +20,37 @@ Definition lay_rec (c : pclass) (n : nat) : list fclass := repeat CTag 4 ++ repe
 Definition lay_str (c : pclass) (bs : list N) : list fclass :=
   lay_rec POther 8 ++ match bs with [] => [] | _ => lay_rec c (length bs) end.
 
+(* script variables: tags and payloads only *)
+Definition lay_ptr : list fclass := lay_rec POther 4.
+
+Definition lay_cstr (s : option (list N)) : list fclass :=
+  lay_rec POther 1 ++ match s with Some bs => lay_str POther bs | None => [] end.
+
+Definition lay_new (content : list fclass) : list fclass :=
+  lay_rec POther 1 ++ lay_rec POther 4 ++ content.
+
+Definition lay_tbody (b : tbody (option N)) : list fclass :=
+  match b with
+  | TNone => []
+  | TStr bs => lay_str POther bs
+  | TPrim k _ => lay_rec POther (vp_width k)
+  | TCStr s => lay_cstr s
+  | TPtr _ _ => lay_ptr
+  | TArrayNew _ _ _ _ _ _ =>
+      lay_new (lay_rec POther 4 ++ lay_rec POther 4 ++ lay_rec POther 4 ++ lay_rec POther 4 ++ lay_rec POther 2)
+  | TConstArrayNew _ _ _ => lay_new (lay_rec POther 4 ++ lay_rec POther 4)
+  | TPointerNew _ ts => lay_new (lay_rec POther 4 ++ flat_map (fun _ => lay_ptr) ts)
+  | THolderRef _ None => []
+  | THolderRef _ (Some _) => lay_rec POther 1 ++ lay_ptr
+  | TVector bs => lay_rec POther (length bs) ++ lay_rec POther (length bs) ++ lay_rec POther (length bs)
+  end.
+
+Definition lay_tok (t : tok (option N)) : list fclass :=
+  lay_rec POther 4 ++ lay_rec POther 1 ++ lay_tbody (t_body t).
+
+Definition lay_key (key : option (option (list N))) : list fclass :=
+  match key with None => [] | Some k => lay_cstr k end.
+
 Definition lay_leaf (l : leaf) : list fclass :=
   match l with
   | LPrim k _ => lay_rec POther (pwidth k)
@@ -27,6 +58,7 @@ Definition lay_leaf (l : leaf) : list fclass :=
   | LStr bs => lay_str POther bs
   | LPtr _ _ => lay_rec POther 4
   | LPos _ => lay_rec POther 4
+  | LVar key toks => lay_key key ++ flat_map lay_tok toks
   end.
 
 Definition lay_item (it : item) : list fclass :=
